@@ -18,6 +18,7 @@ import (
 	"runtime/debug"
 	"sort"
 	"strings"
+	"sync"
 	"sync/atomic"
 	"time"
 
@@ -127,6 +128,7 @@ type testEnv struct {
 	rec           *recorder
 	emitCookieOps bool              // emit a `mkcookie` model comparison for every Set-Cookie (suite cookieattrs)
 	redisFault    map[string]string // upper-case command → "before" | "after" (one shot)
+	redisOnCmd    sync.Map          // upper-case command → func(*server.Peer, []string) bool, called when the command arrives (true: the hook has answered it)
 	redisOutage   atomic.Bool       // while set EVERY Redis command is answered with an error (restart / LOADING / network outage)
 	stopClock     chan struct{}
 	replica       bool // idp and mr belong to another environment
@@ -358,6 +360,11 @@ func newEnv(c *suiteCtx, cfg proxyCfg) (*testEnv, error) {
 			if e.redisOutage.Load() {
 				p.WriteError("LOADING Redis is loading the dataset in memory")
 				return true
+			}
+			if f, ok := e.redisOnCmd.Load(strings.ToUpper(cmd)); ok {
+				if f.(func(*server.Peer, []string) bool)(p, args) {
+					return true
+				}
 			}
 			kind, ok := e.redisFault[strings.ToUpper(cmd)]
 			if !ok {
